@@ -88,8 +88,11 @@ fn run_case(c: &Case, ctx: &mut Ctx) {
     if m.cpu_ns > CPU_LIMIT_NS {
         ctx.violation(format!("cpu:{}", c.key), json!({"cpu_ms": m.cpu_ns / 1_000_000, "limit_ms": CPU_LIMIT_NS / 1_000_000}));
     }
-    if m.peak > MEM_LIMIT {
-        ctx.violation(format!("mem:{}", c.key), json!({"peak_mib": m.peak >> 20, "limit_mib": MEM_LIMIT >> 20}));
+    // an image of the largest size the engine accepts (2048 x 2048) costs 16 MiB as a picture and as much again while it is decoded;
+    // inputs that carry images may hold a bounded number of them (at most 4 per macro invocation, 64 MiB kept on the screen)
+    let mem_limit = if c.key.contains("sixel") { 4 * MEM_LIMIT } else { MEM_LIMIT };
+    if m.peak > mem_limit {
+        ctx.violation(format!("mem:{}", c.key), json!({"peak_mib": m.peak >> 20, "limit_mib": mem_limit >> 20}));
     }
     if let Some(p) = &m.panicked {
         // a panic is C01's subject; it is reported here only as information on the case
@@ -334,6 +337,10 @@ fn build(tier: &str) -> Cost {
     for (name, cmd) in [
         ("REP", "A\x1b[99999b"), ("IL", "\x1b[99999L"), ("DL", "\x1b[99999M"), ("ICH", "\x1b[99999@"), ("DCH", "\x1b[99999P"), ("ECH", "\x1b[99999X"), ("SD", "\x1b[99999T"), ("SU", "\x1b[99999S"),
         ("DECFRA", "\x1b[65;1;1;9999;9999$x"), ("ED", "\x1b[2J"), ("DECERA", "\x1b[1;1;9999;9999$z"), ("LF", "\n\n\n\n\n\n\n\n"), ("CUD+LF", "\x1b[99999B\n"), ("RI", "\x1b[H\x1bM"),
+        // images that stay on the screen side by side, decodes cut loose by a form feed / clear screen
+        ("sixel raster + CUF", "\x1bPq\"1;1;9999;9999\x1b\\\x1b[C"), ("sixel raster + FF", "\x1bPq\"1;1;2048;2048\x1b\\\x0c"), ("sixel raster + ED", "\x1bPq\"1;1;2048;2048#1~\x1b\\\x1b[2J"),
+        // insert mode without autowrap: every printed character is inserted in the last column
+        ("IRM no autowrap REP", "\x1b[4h\x1b[?7lA\x1b[9999b"), ("IRM no autowrap text", "\x1b[4h\x1b[?7lAAAAAAAAAAAAAAAA"),
     ] {
         let hexed: String = cmd.bytes().map(|b| format!("{b:02X}")).collect();
         for n in [64usize, 4000, 65535] {
